@@ -143,7 +143,7 @@ func NewSpecSet() *SpecSet {
 	return &SpecSet{SpecFuncs: map[string]*SpecFunc{}, GhostVars: map[string]*GhostVar{}, AxiomPkg: map[*Clause]string{}}
 }
 
-var keywordRe = regexp.MustCompile(`^(preserves|iterates|yields|typepaths|package|func|prop|mode|requires|ensures|guarantee|rely|callsite|assigns|loop|let|eval|trusted|pure|maypanic|spec|ghost|axiom|lemma|end|noinline|inline|concurrent|safety|flag|terminates)\b`)
+var keywordRe = regexp.MustCompile(`^(panics|preserves|iterates|yields|typepaths|package|func|prop|mode|requires|ensures|guarantee|rely|callsite|assigns|loop|let|eval|trusted|pure|maypanic|spec|ghost|axiom|lemma|end|noinline|inline|concurrent|safety|flag|terminates)\b`)
 
 // ParseSpecFile reads //@ lines from a Go file or a .gospec file.
 // defaultPkg is the package path of the directory for in-repo contract files.
@@ -408,7 +408,7 @@ func (ss *SpecSet) ParseSpecFile(path, defaultPkg string) {
 				cur.Iterates = strings.TrimSpace(rest)
 			case "yields":
 				cur.Yields = append(cur.Yields, &Clause{Kind: "yields", Text: rest, Expr: parse(l, rest), File: path, Line: l.no})
-			case "trusted", "maypanic", "noinline", "inline", "terminates":
+			case "trusted", "maypanic", "noinline", "inline", "terminates", "panics":
 				cur.Flags[kw] = "1"
 			case "concurrent", "safety", "flag":
 				cur.Flags[kw] = rest
